@@ -380,6 +380,8 @@ void Future<void>::Private::FastSignal::reset()
   {
     VERIF_POINT(6);
     _signal.reset();
+    if (Atomic::load(_state) == 1) // a set() that came after the swap above must not be wiped by this reset
+      _signal.set();
   }
 }
 
